@@ -21,10 +21,24 @@
    10 a Jordan-style theorem: points reachable from the kernel point of a star-shaped ring have an
       odd crossing number, so 7 and 8 are also stated over geometric containment (10b);
    11 addToMultiPolygon on arbitrary (malformed) input: what is kept and what is dropped.
-   Scope notes: geometric containment is for star-shaped outers (the generator's scene class),
-   not arbitrary simple polygons; Way.Updates are not modelled here (C15). *)
+   12 reflection lemmas between the oracle vocabulary of the case checker and the theorems'.
+   SCOPE of 7 / 8 (holes_assigned, build_polygon_recovers): the property text says "each inner
+   strictly inside one outer, outers non-nested and disjoint".  The theorems formalise this as
+   [contained]: by the even-odd rule (crossing parity, exact rationals: 7c) some vertex of each
+   hole is inside its own outer and no vertex is inside any other outer - for outers of ANY
+   shape, bounding boxes may overlap.  That this holds for every scene of vertex-disjoint,
+   non-nested simple rings with strictly nested holes is the Jordan curve theorem for polygons,
+   which is NOT proved in general: 10b derives [contained] from geometric hypotheses when the
+   hole's own outer is star-shaped about a kernel point (reachability by axis-parallel legs) and
+   the other outers are of any shape (reachability from a point outside their bounding box).
+   FULL STATEMENT not proved: 8 with [contained] replaced by "rings simple, pairwise disjoint,
+   outers non-nested, every hole in the bounded component of its outer's complement".
+   The harness executes also the classes outside 10b (concave interlocking outers with
+   overlapping bounding boxes) and evaluates [contained] on every case (judgement 3).
+   Way.Updates are not modelled here (C15); the Member.Nodes fallback of buildPolygon is modelled
+   but excluded from the recovery theorems (members resolve through the way table). *)
 From Coq Require Import ZArith List Bool Permutation Lia.
-From Verif Require Import Geo.Model Geo.JoinProofs Geo.Conserve Geo.Closes Geo.Cut Geo.Orient Geo.Sources Geo.Holes Geo.Annotate Geo.Edges Geo.Rings Geo.GroupIdx Geo.Recover Geo.Contain Geo.Assign Geo.Truthful Geo.Build Geo.Collect Geo.Jordan Geo.BuildGeo Geo.Invalid Geo.AnnotateMembers C16.Spec C16.RayQ Geo.Tables C16.GenOk.
+From Verif Require Import Geo.Model Geo.JoinProofs Geo.Conserve Geo.Closes Geo.Cut Geo.Orient Geo.Sources Geo.Holes Geo.Annotate Geo.Edges Geo.Rings Geo.GroupIdx Geo.Recover Geo.Contain Geo.Assign Geo.Truthful Geo.Build Geo.Collect Geo.Jordan Geo.BuildGeo Geo.Invalid Geo.AnnotateMembers C16.Spec C16.Reflect C16.RayQ Geo.Tables C16.GenOk.
 From VerifGen Require Import GenMputil.
 Import ListNotations.
 Open Scope Z_scope.
@@ -455,6 +469,30 @@ Theorem C16_add_all_kept : forall incl0 ls mp0, nonempty_polys mp0 ->
 Proof. exact add_all_kept. Qed.
 Print Assumptions C16_add_all_kept.
 
+(* 12. reflection between the executable oracle vocabulary of the case checker (C16/Spec.v:
+       judgement 2 [polygons_match], judgement 3 [valid_cuts] / [piece_line] / expected
+       orientations) and the vocabulary of the theorems.  Proved: every ring line of the theorems
+       ([is_ring_line], [ccw_line], [cw_line] - the conclusions of 3b, 7, 8) is accepted by the
+       oracle's ring test; the oracle's pieces run around their ring, in the theorems' sense
+       [runs], in the direction the oracle expects.  The containment hypothesis [contained] is
+       evaluated on every case (judgement 3).  NOT proved: [valid_cuts] => [is_cut_lines] and
+       [Forall2 poly_recovered] => the greedy bijection of [polygons_match] (trusted, ~80 lines
+       of executable checker). *)
+Theorem C16_ring_line_accepted : forall r L, (3 <= length r)%nat -> is_ring_line r L ->
+  ring_matches r L = true.
+Proof. exact is_ring_line_matches. Qed.
+Theorem C16_ccw_line_accepted : forall o ol, (3 <= length o)%nat -> ccw_line o ol ->
+  ring_matches o ol && ccwb ol = true.
+Proof. exact ccw_line_accepted. Qed.
+Theorem C16_cw_line_accepted : forall h hl, (3 <= length h)%nat -> cw_line h hl ->
+  ring_matches h hl && cwb hl = true.
+Proof. exact cw_line_accepted. Qed.
+Theorem C16_piece_orientation_runs : forall (r : line) p,
+  (3 <= length r)%nat -> (pc_start p < length r)%nat -> (pc_edges p <= length r)%nat ->
+  runs r (piece_orientation r p) (piece_line r p).
+Proof. exact piece_orientation_runs. Qed.
+Print Assumptions C16_piece_orientation_runs.
+
 (* 9. tie by translation.  gen/GenMputil.v is regenerated from /repo's Go source on every run by
       translator/cmd/mputil (go/ast): Join's if / else-if chain as a table, the first-half test of
       the removal, compact's test, MultiSegment.Orientation's term and sign test,
@@ -712,3 +750,11 @@ Proof.
 Qed.
 Example ex8a_annotate : annotate_orientation ex8_members ex8a_ways = Some ([-1; 0; 1; 0; -1], false).
 Proof. vm_compute. reflexivity. Qed.
+
+(* a kernel point of a NON-convex star-shaped ring (a dart with a reflex vertex at (4,4)) *)
+Example ex_kernel_dart : kernel (Rings.close_ring [(2,2); (10,4); (2,6); (4,4)]) (6, 4).
+Proof.
+  split; [|reflexivity]. intros e [<-|[<-|[<-|[<-|[]]]]]; vm_compute; reflexivity.
+Qed.
+Example ex_dart_inside : point_in_ring (Rings.close_ring [(2,2); (10,4); (2,6); (4,4)]) (6, 4) = true.
+Proof. apply C16_kernel_inside; [reflexivity|exact ex_kernel_dart]. Qed.
